@@ -157,6 +157,43 @@ Theorem C14_flow_structure : forall f code base,
   /\ flow_lines (rename_lines f code) = map f (flow_lines code).
 Proof. intros f code base. split; [apply eol_rename|]. split; [apply length_rename | apply flow_lines_rename]. Qed.
 Print Assumptions C14_flow_structure.
+(* ---- behaviour preservation, proved for the jump fragment of the control-flow machine (model/Flow.v):
+   line headers, PRINT, LET, GOTO, GOSUB, RETURN [n], IF..THEN [n] with its ELSE search, :ELSE [n],
+   ON..GOTO/GOSUB, END ([frag]).  For a program over the lines of ls whose targets all exist, and an ACCEPTED
+   RENUM new,start,step - partial or not, so including jumps from kept lines into the renumbered range and out
+   of it - RUN of the renumbered program produces the same output and ends the same way, the line number in a
+   final error message being mapped by the line map.
+   Outside (stated in C14_simulation_flow_statement, not proved): FOR/NEXT, WHILE/WEND, ERROR, ON ERROR GOTO,
+   RESUME, READ/DATA/RESTORE [n], ERL/ERR in expressions; programs with missing targets (there the clause is
+   false: a kept missing target can collide with a new number). *)
+Theorem C14_flow_simulation : forall f code fuel,
+  (forall a b, In a (flow_lines code) -> In b (flow_lines code) -> f a = f b -> a = b) ->
+  (forall s n, In s code -> In n (targets_of s) -> In n (flow_lines code)) ->
+  (forall s, In s code -> frag s = true) ->
+  (forall m, In m (flow_lines code) -> m <> 65535) ->
+  Flow.run_program (rename_lines f code) fuel
+  = (fst (Flow.run_program code fuel), ren_out f (snd (Flow.run_program code fuel))).
+Proof. exact run_program_rename. Qed.
+Print Assumptions C14_flow_simulation.
+Theorem C14_simulation_renum : forall c s ls tail new start step code fuel,
+  cfg_ok c -> abs_ok c s ls tail -> tail_ok tail -> Forall (fun l : line => fst l < 65535) ls ->
+  0 <= new -> 0 <= start <= 65535 -> accepted ls new start step ->
+  (forall n, In n (flow_lines code) -> In n (nums ls)) ->
+  (forall st n, In st code -> In n (targets_of st) -> In n (flow_lines code)) ->
+  (forall st, In st code -> frag st = true) ->
+  let f := new_number (o2n_of (rn_part start ls) new step) in
+  Flow.run_program (rename_lines f code) fuel
+  = (fst (Flow.run_program code fuel), ren_out f (snd (Flow.run_program code fuel))).
+Proof. exact renum_flow_simulation. Qed.
+Print Assumptions C14_simulation_renum.
+(* one statement of the fragment does the same in the renamed program (states are literally equal) *)
+Theorem C14_flow_statement_commutes : forall f code,
+  (forall a b, In a (flow_lines code) -> In b (flow_lines code) -> f a = f b -> a = b) ->
+  (forall s n, In s code -> In n (targets_of s) -> In n (flow_lines code)) ->
+  (forall s, In s code -> frag s = true) ->
+  forall st, Flow.resume_at (Flow.ds st) = None -> Flow.pstep (rename_lines f code) st = Flow.pstep code st.
+Proof. exact pstep_rename. Qed.
+Print Assumptions C14_flow_statement_commutes.
 Definition C14_simulation_partial := C14_simulation_flow_statement.
 Definition C14_simulation_generic := C14_simulation_statement.
 
